@@ -6,7 +6,9 @@ using namespace V;
 static void run(Ctx& c) {
     Rng& r = c.rng;
     ScriptOpts so; so.minSteps = 20; so.maxSteps = c.thorough ? 160 : 70; so.maxSetPoints = 200; so.maxRelStates = 16;
+    so.wideShapes = true;
     Script S = genScript(r, so);
+    if (*std::max_element(S.shape.sizes.begin(), S.shape.sizes.end()) >= 10) c.count("wide_variable_shapes");
     Config cfg = randomConfig(r, S.forests.size(), true);
     ExecOpts eo; eo.prop = "C02"; eo.auditEvery = 1; eo.canon = true; eo.reevalEvery = 5;
     runScript(S, cfg, c, eo);
